@@ -10,6 +10,7 @@ CONSTANTS
   MaxInits = 1
   Irvs = {9, 10, 11}
   WithFunc = "only"
+  MaxAnn = 3
   EmitOn = TRUE
 SPECIFICATION Spec
 CONSTRAINT Bound
